@@ -55,7 +55,7 @@ def cases(draw, nums, invalid_kinds=(None,), pmax=4, kmax=4):
     invalid = draw(st.sampled_from(list(invalid_kinds)))
     nodes = draw(node_multiset(c["U"], c["p"], invalid))
     return {"curve": c, "nodes": nodes, "invalid": invalid, "twin_first": draw(st.integers(0, 2)) == 0,
-            "container": draw(st.sampled_from(["list", "tuple", "ndarray"]))}
+            "container": draw(st.sampled_from(["list", "tuple", "ndarray", "gen", "iter", "map", "objarray"]))}
 
 
 def check(case, out):
@@ -67,7 +67,7 @@ def check(case, out):
     p = ref.p
     lnodes = [lib.conv_knot(z, num) for z in case["nodes"]]
     nodes = [oracle.frac(z) for z in lnodes]
-    arg = tuple(lnodes) if case["container"] == "tuple" else list(lnodes)
+    arg = lib.seq_form(lnodes, case["container"]) if case["container"] != "ndarray" else list(lnodes)
     if case["container"] == "ndarray" and not exact and lnodes:
         import numpy as _np
         arg = _np.array(lnodes, dtype="float64")
@@ -115,20 +115,20 @@ def check(case, out):
         out.nontrivial = multi
         if exc is None:
             out.fail("invalid-request-accepted", f"{klass};{req}",
-                     f"knot_insert({arg}) on U={U} accepted; now {list(curve.knotvector)}")
+                     f"knot_insert({case['container']} {lnodes}) on U={U} accepted; now {list(curve.knotvector)}")
         elif lib.snapshot(curve) != snap:
             out.fail("atomicity", f"{klass};{req}",
-                     f"knot_insert({arg}) on U={U} raised ValueError but changed the curve: "
+                     f"knot_insert({case['container']} {lnodes}) on U={U} raised ValueError but changed the curve: "
                      f"ctrlpoints={curve.ctrlpoints}, U={list(curve.knotvector)}")
         return
     out.nontrivial = multi and (hits_knot or len(nodes) >= 2)
     sub = "node==0" if F(0) in nodes else ("at-knot" if hits_knot else "new-knot")
     if exc is not None:
-        out.fail("valid-request-rejected", f"{klass};{sub}", f"knot_insert({arg}) on U={U}: ValueError {exc}")
+        out.fail("valid-request-rejected", f"{klass};{sub}", f"knot_insert({case['container']} {lnodes}) on U={U}: ValueError {exc}")
         return
     after = lib.state_of(curve)
     if after.U != newU or after.p != p:
-        out.fail("knotvector", f"{klass};{sub}", f"knot_insert({arg}) on U={U}: got {after.U} degree {after.p}, expected {newU}")
+        out.fail("knotvector", f"{klass};{sub}", f"knot_insert({case['container']} {lnodes}) on U={U}: got {after.U} degree {after.p}, expected {newU}")
         return
     if len(after.P) != ref.n + len(nodes) or (after.w is not None and len(after.w) != len(after.P)):
         out.fail("npts", f"{klass};{sub}", f"{len(after.P)} control points for {ref.n}+{len(nodes)}")
@@ -140,7 +140,7 @@ def check(case, out):
         wit = oracle.same_function(ref, after)
         if wit is not None:
             out.fail("function-changed", f"{klass};{sub}",
-                     f"knot_insert({arg}) on U={U} P={ref.P} w={ref.w}: at u={wit[0]} before={wit[1]} after={wit[2]}")
+                     f"knot_insert({case['container']} {lnodes}) on U={U} P={ref.P} w={ref.w}: at u={wit[0]} before={wit[1]} after={wit[2]}")
             return
         if ref.w is None:
             exp = oracle.refine_state(ref, newU, p)
@@ -150,7 +150,7 @@ def check(case, out):
         dev, where = oracle.max_deviation(ref, after)
         tol = F(1, 10 ** 9) * max([abs(x) for pt in ref.P for x in pt] + [F(1)])
         if dev > tol:
-            out.fail("function-changed", f"{klass};{sub}", f"knot_insert({arg}) on U={U}: deviation {float(dev):.3e} at u={float(where)}")
+            out.fail("function-changed", f"{klass};{sub}", f"knot_insert({case['container']} {lnodes}) on U={U}: deviation {float(dev):.3e} at u={float(where)}")
 
 
 FACETS = [
